@@ -211,8 +211,8 @@ FKB = "wannierberri/result/kbandresult.py"
 FP = "wannierberri/parallel.py"
 
 
-def _path_unit(n):
-    @unit("C12", "TABresult.self_to_path[%d points]" % n, scope="shape:path of %d points, every collection order%s" % (n, "" if n <= 5 else " (sampled)"), expect_min=3)
+def _path_unit(n, prop="C12"):
+    @unit(prop, "TABresult.self_to_path[%d points]" % n, scope="shape:path of %d points, every collection order%s" % (n, "" if n <= 5 else " (sampled)"), expect_min=3)
     def _p(U):
         import random as _r
         made = []
